@@ -8,7 +8,8 @@ Import ListNotations.
 Open Scope Z_scope.
 
 Record st := { lastp : list (key * list Z); resp : list Z (* endpoints that sent a stateless response *);
-               connected : list key; born : list key (* one entry per incarnation *) }.
+               connected : list key; born : list key (* one entry per incarnation *);
+               closed : list key (* close() called locally *) }.
 
 (** frames of kind [j] (stats index of tx; rx is j+1) *)
 Definition le_tx (rxp txp : list Z) (j : nat) : bool := sf rxp (j + 1) <=? sf txp j.
@@ -28,37 +29,43 @@ Definition final_ok (s : st) : bool :=
     end) (lastp s).
 
 Definition step (s : st) (r : list Z) : option st :=
-  if tag r =? 8 then Some {| lastp := aset (lastp s) (rkey r) r; resp := resp s; connected := connected s; born := born s |}
+  if tag r =? 8 then Some {| lastp := aset (lastp s) (rkey r) r; resp := resp s; connected := connected s; born := born s; closed := closed s |}
   else if tag r =? 2 then
     (* routing: a datagram produced by connection [origin] is handed to that connection only *)
     let out := fld r 5 in
     let origin := fld r 8 in
     (* a replayed Initial whose connection is gone legitimately opens a fresh attempt
        (index 255: no pair identity); genuine and in-flight duplicates must reach their owner *)
-    let fresh_attempt := (out =? 2) && (fld r 6 =? 255) && ((fld r 9 =? 5) || (fld r 9 =? 6)) in
-    if ((out =? 1) || (out =? 2)) && (0 <=? origin) && negb (fld r 6 =? origin) && negb fresh_attempt then None
-    else if out =? 3 then Some {| lastp := lastp s; resp := rep r :: resp s; connected := connected s; born := born s |}
+    let fresh_attempt := (out =? 2) && ((fld r 9 =? 5) || (fld r 9 =? 6)) in
+    if ((out =? 1) || (out =? 2)) && (0 <=? origin) && negb ((fld r 6) mod 1000 =? origin) && negb fresh_attempt then None
+    else if out =? 3 then Some {| lastp := lastp s; resp := rep r :: resp s; connected := connected s; born := born s; closed := closed s |}
     else Some s
   else if (tag r =? 3) && ((fld r 4 =? 20) || (fld r 4 =? 21)) then
     (* a new incarnation under this pair index has not connected yet *)
     Some {| lastp := lastp s; resp := resp s;
             connected := filter (fun k => negb (key_eqb k (rkey r))) (connected s);
-            born := rkey r :: born s |}
+            born := rkey r :: born s; closed := closed s |}
+  else if (tag r =? 3) && (fld r 4 =? 11) then
+    Some {| lastp := lastp s; resp := resp s; connected := connected s; born := born s;
+            closed := rkey r :: closed s |}
   else if tag r =? 11 then None
   else if tag r =? 4 then
-    if (fld r 4 =? 3) && negb (ridx r =? 255) then
+    if (fld r 4 =? 3) && (ridx r <? 255) then
       (* no transport error, no version mismatch caused by the attacker; a reset only if the peer
          endpoint really issued a stateless reset (it had forgotten the connection) *)
       if (fld r 5 =? 4) && ((fld r 6 =? 42) || (fld r 6 =? 43) || (fld r 6 =? 41)) then Some s
       else if (fld r 5 =? 5) && existsb (Z.eqb (1 - rep r)) (resp s) then Some s
+      else if (fld r 5 =? 3) && (fld r 6 =? 12) && existsb (key_eqb (1 - rep r, ridx r)) (closed s) then Some s
+      (* the peer closed but its close packet was lost or corrupted: timing out is all that is left *)
+      else if (fld r 5 =? 6) && existsb (key_eqb (1 - rep r, ridx r)) (closed s) then Some s
       (* a replayed Initial opens a fresh attempt that can only time out *)
       else if (fld r 5 =? 6) && negb (existsb (key_eqb (rkey r)) (connected s)) then Some s
       else None
-    else if fld r 4 =? 2 then Some {| lastp := lastp s; resp := resp s; connected := rkey r :: connected s; born := born s |}
+    else if fld r 4 =? 2 then Some {| lastp := lastp s; resp := resp s; connected := rkey r :: connected s; born := born s; closed := closed s |}
     else Some s
   else if tag r =? 10 then
     if final_ok s then Some s else None
   else Some s.
 
 Definition monitor (i : ops) (o : outs) : option Z :=
-  snd (run_from step 0 {| lastp := []; resp := []; connected := []; born := [] |} o).
+  snd (run_from step 0 {| lastp := []; resp := []; connected := []; born := []; closed := [] |} o).
